@@ -44,7 +44,17 @@ def all_gens():
 
 def multikey_cmd(rng, keys):
     k = [rng.choice(keys) for _ in range(4)]
-    c = rng.choice(["mset", "mset", "rename", "mget", "del", "exists", "mset", "lmove", "smove", "sstore", "salg", "blpop", "rpush", "sadd"])
+    c = rng.choice(["mset", "mset", "rename", "mget", "del", "exists", "mset", "lmove", "smove", "sstore", "salg", "blpop", "rpush", "sadd",
+                    "self", "rpush1", "lpop"])
+    if c == "self":
+        # the same key in both roles (rotation of a queue, a move onto itself), on whatever the key holds — often one element
+        return rng.choice([[b"LMOVE", k[0], k[0], rng.choice([b"LEFT", b"RIGHT"]), rng.choice([b"LEFT", b"RIGHT"])], [b"RENAME", k[0], k[0]],
+                           [b"SMOVE", k[0], k[0], rng.choice([b"a", b"b"])], [b"SUNIONSTORE", k[0], k[0]], [b"SDIFFSTORE", k[0], k[0], k[0]],
+                           [b"MSET", k[0], b"1", k[0], b"2"], [b"RPOPLPUSH", k[0], k[0]]]), k[:1]
+    if c == "rpush1":
+        return [rng.choice([b"RPUSH", b"LPUSH"]), k[0], rng.choice([b"only", b""])], k[:1]
+    if c == "lpop":
+        return [rng.choice([b"LPOP", b"RPOP"]), k[0]], k[:1]
     if c == "lmove":
         return [b"LMOVE", k[0], k[1], rng.choice([b"LEFT", b"RIGHT"]), rng.choice([b"LEFT", b"RIGHT"])], k[:2]
     if c == "smove":
@@ -80,7 +90,7 @@ def multikey_gens():
 
 
 def conc_scenarios():
-    sc = ["counter", "register", "setnx", "expiry", "rearm"]
+    sc = ["counter", "register", "setnx", "expiry", "rearm", "bigvalue"]
     if _opt("execgen_list", "ListGen"):
         sc.append("queue")
         sc.append("bqueue")
